@@ -132,6 +132,14 @@ def run(ctx):
             c['strategy'] = ctx.rng.choice(['O1', 'O1', 'On'])
             c['conf'] = SETTINGS[i % len(SETTINGS)] if ctx.rng.random() < 0.8 else {}
             c['details'] = True
+        # ... and hints reinterpreted by hint_overrides / is_pep484_tower (the explanation path reduces hints itself)
+        from harness.props import c18
+        for i, c in enumerate(c18.gen_cases(ctx.rng, {'quick': 90, 'thorough': 2500}[ctx.tier], 4, ENTRIES + ('cause',))):
+            c.pop('hand_hint', None)
+            c['strategy'] = ctx.rng.choice(['O1', 'On'])
+            c['conf'] = dict(c['conf'], **SETTINGS[i % len(SETTINGS)])
+            c['details'] = True
+            cases.append(c)
         for lo in range(0, len(cases), 300):
             part = cases[lo:lo + 300]
             obs = C.run_impl_cases(part)
